@@ -152,7 +152,9 @@ local function run(w)
     return hex_of_limbs(n)
   elseif op == 'from_dec' then
     local n, base = bn.from(bytes_of_hex(w[2]))
-    assert(base == 10 and bn.isbint(n))
+    assert(base == 10)
+    if math.type(n) == 'float' then return 'float' end  -- literal too large for a big number: read as a float
+    assert(bn.isbint(n))
     return hex_of_limbs(n)
   elseif op == 'tohexint' then
     return str(bn.tohexint(limbs_of_hex(w[2]), w[3] ~= 'nil' and int_of_hex(w[3]) or nil))
